@@ -731,8 +731,11 @@ func TestRealNATSListenAndServe(t *testing.T) {
 		case <-time.After(20 * time.Second):
 			t.Fatalf("VERIF-INCONCLUSIVE: ListenAndServe did not start")
 		}
-		// the subscriptions are flushed by the time a request from another client arrives? make sure
-		time.Sleep(50 * time.Millisecond)
+		// OnServe is called once the subscriptions have been handed to the client library, not
+		// once the server has them: a ping round trip on the service's connection comes first
+		if snc, ok := s.Conn().(*nats.Conn); ok {
+			_ = snc.FlushTimeout(60 * time.Second)
+		}
 		n := 0
 		for try := 0; try < 3 && n == 0; try++ {
 			if m, err := client.Request("get.svc.a", nil, 5*time.Second); err == nil && len(m.Data) > 0 {
